@@ -1,7 +1,7 @@
 (* Css/DefaultingSpecProofs.v -- the computer functions of the model (exact instance)
    compute what CSS defines (Css/DefaultingSpec.v): lengths, font-size, font-weight,
    border widths, line-height, display / float. *)
-From Verif Require Import Css.Defaulting Css.DefaultingSpec Css.DefaultingProofs Css.DefaultingTables
+From Verif Require Import Css.Defaulting Css.DefaultingSpec Css.DefaultingTyping Css.DefaultingProofs Css.DefaultingTables
                           Css.DefaultingEquations Css.DefaultingTotal.
 From Coq Require Import Lia ZifyBool ZifyNat ZifyN Qfield.
 Open Scope N_scope.
@@ -189,6 +189,80 @@ Section SpecProofs.
   Qed.
 End SpecProofs.
 
+(* ------------------------------------------------------------------ box properties *)
+
+Section More.
+  Variable env : dep -> res value.
+
+  Lemma border_width_spec p v sty (fs rfs : Q) s q u :
+    env (DOwn (N.pred p)) = Ok (VStr sty) ->
+    v = VDim s q u -> In s [""; "thin"; "medium"; "thick"]%string -> uses_metrics u = false -> u < 256 ->
+    (exists sr ur, env DRootFs = Ok (VDim sr rfs ur)) ->
+    (exists sf uf, env (DOwn PFontSize) = Ok (VDim sf fs uf)) ->
+    exists r, run_pure env (border_width exactQ p v) = Ok r /\ value_eq r (spec_border_width sty fs rfs v).
+  Proof.
+    intros Hsty -> Hs Hm Hu Hr Hf. unfold border_width, spec_border_width. cbn [run_pure]. rewrite Hsty.
+    destruct ((sty ==s "none") || (sty ==s "hidden")).
+    { eexists. split; [reflexivity|]. constructor. reflexivity. }
+    cbn [In] in Hs. destruct Hs as [<-|[<-|[<-|[<-|[]]]]];
+      try (eexists; split; [reflexivity|constructor; vm_compute; reflexivity]).
+    cbn [assoc_S find border_width_keywords fst String.eqb Ascii.eqb Bool.eqb css_border_keyword].
+    apply (length_spec env (VDim "" q u) None fs rfs true "" q u eq_refl (or_introl eq_refl) Hm Hu Hr Hf).
+  Qed.
+
+  Lemma value_eq_dim_inv r s q u : value_eq r (VDim s q u) -> exists q', r = VDim s q' u /\ q' == q.
+  Proof. intros H. inversion H; subst. eauto. Qed.
+
+  Lemma line_height_spec v (fs rfs : Q) s q u :
+    v = VDim s q u -> (s = "" \/ s = "normal")%string -> uses_metrics u = false -> u < 256 ->
+    (exists sr ur, env DRootFs = Ok (VDim sr rfs ur)) ->
+    (exists sf uf, env (DOwn PFontSize) = Ok (VDim sf fs uf)) ->
+    exists r, run_pure env (line_height exactQ v) = Ok r /\ value_eq r (spec_line_height fs rfs v).
+  Proof.
+    intros -> Hs Hm Hu Hr Hf. unfold line_height, spec_line_height.
+    destruct Hs as [->| ->]; cbn [String.eqb Ascii.eqb Bool.eqb].
+    2: { eexists. split; [reflexivity|constructor; reflexivity]. }
+    destruct (u =? U_Scalar). { eexists. split; [reflexivity|constructor; reflexivity]. }
+    destruct (u =? U_Perc).
+    { destruct Hf as (sf & uf & Hf). unfold own_fs. cbn. rewrite Hf. cbn.
+      eexists. split; [reflexivity|]. constructor. field. }
+    destruct (length_spec env (VDim "" q u) None fs rfs true "" q u eq_refl (or_introl eq_refl) Hm Hu Hr Hf) as (r & Er & Hv).
+    rewrite (run_pure_bind env _ _ r Er).
+    cbn [spec_length String.eqb negb] in Hv |- *.
+    destruct (css_px_per u) as [k|].
+    { apply value_eq_dim_inv in Hv. destruct Hv as (q' & -> & Hq). cbn. eexists. split; [reflexivity|]. constructor. exact Hq. }
+    destruct (u =? U_Em).
+    { apply value_eq_dim_inv in Hv. destruct Hv as (q' & -> & Hq). cbn. eexists. split; [reflexivity|]. constructor. exact Hq. }
+    destruct (u =? U_Rem).
+    { apply value_eq_dim_inv in Hv. destruct Hv as (q' & -> & Hq). cbn. eexists. split; [reflexivity|]. constructor. exact Hq. }
+    destruct (Qeq_bool q 0).
+    { apply value_eq_dim_inv in Hv. destruct Hv as (q' & -> & Hq). cbn. eexists. split; [reflexivity|]. constructor. exact Hq. }
+    apply value_eq_dim_inv in Hv. destruct Hv as (q' & -> & Hq). cbn. eexists. split; [reflexivity|]. constructor. exact Hq.
+  Qed.
+
+  Lemma display_spec (isr : bool) v pb ps fl a b c :
+    env DSpecPos = Ok (VBoolStr pb ps) -> env DSpecFloat = Ok (VStr fl) -> v = VDisplay a b c ->
+    run_pure env (display isr v) =
+      Ok (spec_display (negb pb && ((ps ==s "absolute") || (ps ==s "fixed"))) (negb (fl ==s "none")) isr v).
+  Proof.
+    intros Hp Hf ->. unfold display, spec_display. cbn [run_pure]. rewrite Hf, Hp. cbn [str_of].
+    destruct (negb pb && ((ps ==s "absolute") || (ps ==s "fixed")) || negb (fl ==s "none") || isr); [|reflexivity].
+    destruct ((a ==s "inline-table") && (b ==s "") && (c ==s "")); [reflexivity|].
+    destruct ((b ==s "") && (c ==s "") && String.prefix "table-" a); [reflexivity|].
+    destruct (a ==s "inline") eqn:Ea; [|reflexivity].
+    apply String.eqb_eq in Ea. subst a. cbn [String.eqb Ascii.eqb Bool.eqb orb].
+    destruct ((b ==s "list-item") || (c ==s "list-item")); reflexivity.
+  Qed.
+
+  Lemma float_spec v pb ps s :
+    env DSpecPos = Ok (VBoolStr pb ps) -> v = VStr s ->
+    run_pure env (floating v) = Ok (spec_float ((ps ==s "absolute") || (ps ==s "fixed") || pb) v).
+  Proof.
+    intros Hp ->. unfold floating, spec_float. cbn [run_pure]. rewrite Hp.
+    destruct ((ps ==s "absolute") || (ps ==s "fixed") || pb); reflexivity.
+  Qed.
+End More.
+
 (* ------------------------------------------------------------------ at the level of `computed` *)
 
 Section ComputedSpecs.
@@ -257,6 +331,33 @@ Section ComputedSpecs.
     apply (font_weight_spec (ctx_env exactQ t n nd PFontWeight) (is_root_node nd) v pfw s i Hv); [|exact Hw].
     unfold is_root_node, ctx_env, parent_value. cbn [pure_env]. unfold is_root_node.
     destruct (n_parent nd) as [j|]; exact Hpar.
+  Qed.
+
+  (* ... and on a well-typed tree the parent's computed weight is one of 100 .. 900 *)
+  Theorem font_weight_computed_wt n nd v s i :
+    wt_tree t = true ->
+    node_at t n = Some nd -> n_kind nd = KElem ->
+    effective nd PFontWeight = Some (CExplicit v) -> v = VIntStr s i ->
+    exists pfw,
+      In pfw css_weights /\
+      match n_parent nd with
+      | Some j => exists sp, comp j PFontWeight = Ok (VIntStr sp pfw)
+      | None => pfw = 400%Z
+      end /\
+      comp n PFontWeight = Ok (spec_font_weight pfw v).
+  Proof.
+    intros WT En Ek Heff Hv.
+    assert (Hpar : exists pfw, In pfw css_weights /\
+              match n_parent nd with
+              | Some j => exists sp, comp j PFontWeight = Ok (VIntStr sp pfw)
+              | None => pfw = 400%Z end).
+    { destruct (n_parent nd) as [j|] eqn:Ep.
+      - pose proof (parent_lt t WF n nd j En Ep) as Hj. pose proof (node_at_lt t n nd En) as Hn.
+        destruct (get_total t WT j PFontWeight ltac:(lia) (proj1 (proj2 special_props_valid))) as (w & Ew & Sw).
+        destruct (shape_fw _ Sw) as (sp & pfw & -> & Hin). exists pfw. split; [exact Hin|]. eauto.
+      - exists 400%Z. split; [vm_compute; tauto|reflexivity]. }
+    destruct Hpar as (pfw & Hin & Hp). exists pfw. split; [exact Hin|]. split; [exact Hp|].
+    apply (font_weight_computed n nd v s i pfw En Ek Heff Hv Hp Hin).
   Qed.
 
   (* lengths on the properties computed by `length`: absolute units by the CSS ratios,
